@@ -481,7 +481,7 @@ def seed_tables() -> dict:
     for w in sc.shared_state():
         if w not in writes:
             writes.append(w)
-    return {"poisson_order": _poisson_order(tree), "plumbing": plumbing() + _ctor_stores(tree),
+    return {"grid_dtypes": _grid_dtypes(tree), "poisson_order": _poisson_order(tree), "plumbing": plumbing() + _ctor_stores(tree),
             "temp_seed": temp_seed_shape(tree), "temp_seed_args": _temp_seed_args(tree), "writes": writes,
             "plans": sorted(plans.items()), "rows": rows, "reached": sorted(sc.reached)}
 
@@ -526,6 +526,77 @@ def _ctor_stores(tree: ast.Module) -> list[tuple[str, bool]]:
     return rows
 
 
+_GRID_FUNCS = ["centered_disk_mask", "CIRCUSMaskFunc.circular_centered_mask", "CartesianVerticalMaskFunc.center_mask_func",
+               "KtBaseMaskFunc.zero_pad_to_center", "VariableDensityPoissonMaskFunc.poisson"]
+_GRID_CTORS = {"indices", "arange", "ogrid", "mgrid", "meshgrid", "linspace", "zeros", "ones", "empty", "full", "tensor", "asarray", "array",
+               "as_tensor", "from_numpy"}
+_CAST_METHODS = {"astype", "to", "type", "view"}
+_TORCH_CASTS = {"short": "torch.int16", "int": "torch.int32", "byte": "torch.uint8", "char": "torch.int8", "half": "torch.float16",
+                "long": "torch.int64", "double": "torch.float64", "float": "torch.float32", "bool": "torch.bool"}
+_DTYPE_WORDS = ("int", "float", "bool", "double", "long", "short", "byte", "half", "complex", "uintp", "intp", "intc", "ubyte")
+
+
+def _looks_like_dtype(txt: str) -> bool:
+    t = txt.strip("'\"").lower().split(".")[-1].lstrip("<>=|")
+    return any(w in t for w in _DTYPE_WORDS) or (len(t) == 2 and t[0] in "iuf" and t[1].isdigit())
+
+
+def _dtype_class(txt: str) -> str:
+    """`default` | `wide-int` (64-bit signed) | `narrow-int` (fewer bits or unsigned: index arithmetic wraps) | `bool` |
+    `float` | `narrow-float` (float16) | `inherit` (`x.dtype`) | `unknown`"""
+    import re
+
+    if txt == "default":
+        return "default"
+    if txt.endswith(".dtype"):
+        return "inherit"
+    t = txt.strip("'\"").lower().split(".")[-1].lstrip("<>=|")
+    if re.fullmatch(r"uint\d*|int(8|16|32)|short|ushort|ubyte|byte|intc|uintc|uintp|char|[iu][124]|u8|ulong|ulonglong", t):
+        return "narrow-int"
+    if re.fullmatch(r"int|int64|intp|int_|long|longlong|i8", t):
+        return "wide-int"
+    if re.fullmatch(r"bool|bool_|\?", t):
+        return "bool"
+    if re.fullmatch(r"float16|half|f2|bfloat16", t):
+        return "narrow-float"
+    if re.fullmatch(r"float\d*|double|single|f4|f8|longdouble", t):
+        return "float"
+    return "unknown"
+
+
+def _grid_dtypes(tree: ast.Module) -> list[tuple[str, str, str]]:
+    """the ACS geometry helpers compute squared distances / slice bounds on index grids: every index-grid constructor
+    (`np.indices`, `np.ogrid[...]`, `np.arange`, …) and every explicit dtype / cast in those helpers, as
+    (helper, expression, dtype) — `default` when no dtype is given (numpy / torch then use 64-bit signed integers)"""
+    from ..pyexpr import find_function
+
+    rows = []
+    for q in _GRID_FUNCS:
+        try:
+            fn = find_function(tree, q)
+        except Untranslatable:
+            rows.append((q, "?function not found", "?"))
+            continue
+        for n in ast.walk(fn):
+            if isinstance(n, ast.Subscript) and ast.unparse(n.value).split(".")[-1] in ("ogrid", "mgrid"):
+                rows.append((q, ast.unparse(n)[:60], "default"))
+            if not isinstance(n, ast.Call):
+                continue
+            fname = ast.unparse(n.func).split(".")[-1]
+            kw = next((k for k in n.keywords if k.arg == "dtype"), None)
+            if kw is not None:
+                rows.append((q, ast.unparse(n)[:60], ast.unparse(kw.value)))
+            elif isinstance(n.func, ast.Attribute) and fname in _CAST_METHODS and n.args and _looks_like_dtype(ast.unparse(n.args[0])):
+                rows.append((q, ast.unparse(n)[:60], ast.unparse(n.args[0])))
+            elif isinstance(n.func, ast.Attribute) and fname in _TORCH_CASTS and not n.args and not n.keywords:
+                rows.append((q, ast.unparse(n)[:60], _TORCH_CASTS[fname]))
+            elif _looks_like_dtype(ast.unparse(n.func)) and ast.unparse(n.func).split(".")[0] in ("np", "numpy", "torch") and n.args:
+                rows.append((q, ast.unparse(n)[:60], ast.unparse(n.func)))          # np.uint16(x)
+            elif fname in ("indices", "arange", "meshgrid", "linspace") and ast.unparse(n.func).split(".")[0] in ("np", "numpy", "torch"):
+                rows.append((q, ast.unparse(n)[:60], "default"))
+    return rows
+
+
 def _b(x) -> str:
     return "true" if x else "false"
 
@@ -545,6 +616,7 @@ def _seed_extra():
                 'def callPlans : List (String × List String) := [("BaseMaskFunc", ["guard", "guard", "forward"])]\n'
                 "def seedParams : List (String × Bool × Bool × Bool) :=\n  ["
                 + ", ".join(f'("{g}", true, false, true)' for g in C05_GENERATORS) + "]\n"
+                "def gridDtypes : List (String × String × String) := []\n"
                 'def poissonOrder : List String := ["raster", "crop", "disc"]\n'
                 "def callSitePlumbing : List (String × Bool) := [" + ", ".join(f"({_q(x)}, true)" for x in PLUMBING_EXPECTED + ["ctor a", "ctor b"]) + "]\n")
         return text, {"seed_pass_through": f"skipped: {e}"}
@@ -569,6 +641,11 @@ def _seed_extra():
         sep = "," if i + 1 < len(t["rows"]) else ""
         L.append(f"  ({_q(g)}, {_b(a)}, {_b(b)}, {_b(c)}){sep}")
     L.append("]\n")
+    L.append("/-- index-grid constructors and explicit dtypes / casts in the ACS geometry helpers: (helper, expression, dtype class) -/")
+    L.append("def gridDtypes : List (String × String × String) := [")
+    for i, (a, b, c) in enumerate(t["grid_dtypes"]):
+        L.append(f"  ({_q(a)}, {_q(b + '  [dtype ' + c + ']')}, {_q(_dtype_class(c))})" + ("," if i + 1 < len(t["grid_dtypes"]) else ""))
+    L.append("]\n")
     L.append("/-- steps of the bisection loop of `VariableDensityPoissonMaskFunc.poisson`, in source order -/")
     L.append("def poissonOrder : List String := [" + ", ".join(_q(x) for x in t["poisson_order"]) + "]\n")
     L.append("/-- the producers of (mask, ACS) pairs outside subsample.py (`CreateSamplingMask.__call__`) and `integerize_seed`: (fact, holds) -/")
@@ -576,7 +653,7 @@ def _seed_extra():
     for i, (txt, ok) in enumerate(t["plumbing"]):
         L.append(f"  ({_q(txt)}, {_b(ok)})" + ("," if i + 1 < len(t["plumbing"]) else ""))
     L.append("]\n")
-    return "\n".join(L), {"call_site_plumbing": "translated", "poisson_crop_before_disc": "translated", "seed_pass_through": "translated", "state_writes(instance/class/module/memo decorators)": "translated",
+    return "\n".join(L), {"grid_index_dtypes": "translated", "call_site_plumbing": "translated", "poisson_crop_before_disc": "translated", "seed_pass_through": "translated", "state_writes(instance/class/module/memo decorators)": "translated",
                           "call_plan": "translated", "seed_param_and_choice_order": "translated"}
 
 
